@@ -124,6 +124,7 @@ def leaf_end(ctx):
 
 ATOM_ABBR = (
     ("IN", "Option::unwrap(<Skip<I> as Iterator>::next(Iterator::skip(iter(a2.search), a3)))"),
+    ("IN", "Option::unwrap(<Skip<I> as Iterator>::next(Iterator::skip(a2.search, a3)))"),
     ("AT", "<Iter<T> as Iterator>::next(a1.atom) as Some.0"),
     ("NEXT", "<Iter<T> as Iterator>::next(a1.atom)"),
 )
